@@ -108,11 +108,11 @@ fn describe_snap(s: &Snap) -> String {
     )
 }
 
-fn sizes_within_caps(sn: &Snap) -> bool {
-    sn.exec_len <= sn.caps[0]
-        && sn.int.len() <= sn.caps[1]
-        && sn.float.len() <= sn.caps[2]
-        && sn.bool.len() <= sn.caps[3]
+/// `caps` = the *configured* maxima (exec, int, float, bool): what the builder
+/// / the harness set, not what the state currently claims — an instruction
+/// that silently changed a maximum must not excuse an over-full stack.
+fn sizes_within_caps(sn: &Snap, caps: &[usize; 4]) -> bool {
+    sn.exec_len <= caps[0] && sn.int.len() <= caps[1] && sn.float.len() <= caps[2] && sn.bool.len() <= caps[3]
 }
 
 fn is_overflow_err(e: &PushInstructionError) -> bool {
@@ -287,12 +287,27 @@ pub fn stepped(sc: &VmSc, with_faults: bool, keep_states: bool, obs: &mut Obs, o
         };
         let sn = snap(&new_state);
         // C03: no stack above its maximum at a step boundary
-        if class == Class::Ok && !sizes_within_caps(&sn) {
+        if class == Class::Ok && !sizes_within_caps(&sn, &model.caps) {
             out.push(tag(
                 Prop::C03,
                 "stack-size-within-max",
                 format!("over-max:{name}"),
-                format!("step {t}: after {name} a stack exceeds its maximum: {}", describe_snap(&sn)),
+                format!(
+                    "step {t}: after {name} a stack exceeds its configured maximum {:?}: {}",
+                    model.caps,
+                    describe_snap(&sn)
+                ),
+            ));
+        }
+        if sn.caps != model.caps {
+            out.push(tag(
+                Prop::C03,
+                "stack-size-within-max",
+                format!("max-changed:{name}"),
+                format!(
+                    "step {t}: {name} changed a stack's maximum size: configured {:?}, now {:?}",
+                    model.caps, sn.caps
+                ),
             ));
         }
         // C03: only overflow aborts
@@ -440,7 +455,9 @@ pub fn simulate(sc: &VmSc, obs: &mut Obs) -> Vec<Tagged> {
                     obs.hit("fault.step-budget-cut");
                     let want = &a.states[k];
                     let got = snap(&fin);
-                    if !sizes_within_caps(&got) {
+                    let configured =
+                        [init.caps.exec, init.caps.int, init.caps.float, init.caps.bool];
+                    if !sizes_within_caps(&got, &configured) {
                         out.push(tag(
                             Prop::C03,
                             "stack-size-within-max",
